@@ -39,7 +39,9 @@ def Arr.kf (a : Arr) : Op → Bool
   | .push v => !(assignTo a.ty v).isOk
   | .append v => !(assignTo a.ty v).isOk
   | .pushAt v _ => !(assignTo a.ty v).isOk
-  | .concat _ => true
+  | .concat (.seq vs) => vs.any (fun v => !(assignTo a.ty v).isOk)     -- F15: a source element that `assign` refuses
+  | .concat (.scalar (.str _)) => true                                -- `len` succeeds, then `foreach` over a String
+  | .concat (.scalar _) => false                                      -- NULL / no `Len`: refused before anything is touched
   | .assign _ => true
   | _ => false
 
@@ -211,5 +213,63 @@ def Str.spec (s : Str) : Op → Option Exc
   | .pop => some .ClassError
   | .popAt _ => some .ClassError
   | .print _ _ _ => none     -- specified separately (`printSpec`)
+
+/-! ### containers of containers -/
+
+def NSrc.isVal : NSrc → Bool
+  | .val _ => true
+  | .cont _ => false
+
+/-- the sources the histories offer besides containers: an Int, a Plain, NULL -/
+def NSrc.argOk : NSrc → Prop
+  | .val (.int i) => -(2 ^ 63 : Int) ≤ i ∧ i < 2 ^ 63
+  | .val (.plain _) => True
+  | .val .null => True
+  | .val _ => False
+  | .cont _ => True
+
+def NOp.argsOk : NOp → Prop
+  | .get k => k.argOk
+  | .set k src => k.argOk ∧ src.argOk
+  | .push src => src.argOk
+  | .pushAt src k => src.argOk ∧ k.argOk
+  | .popAt k => k.argOk
+  | _ => True
+
+/-- every element is of the declared element type; fewer than 2^63 of them -/
+def Nest.wf (n : Nest) : Prop := (∀ e ∈ n.items, e.kind = n.ek) ∧ n.items.length + 1 < 2 ^ 63
+
+def Nest.pushIdxOk (n : Nest) (k : Val) : Bool :=
+  match cInt k with
+  | .ok kb => inBoundsIncl n.items.length (normIdxPush n.items.length kb)
+  | _ => false
+
+/-- territory of the assign-clears / foreach / F15 findings on nested containers: an element `assign`ed from something that is not
+    a container — `set` on a valid index; `push` / `push_at` (valid position) on an outer Array.  (A List links the new node only
+    after the `assign` succeeded: its `push` is atomic.) -/
+def Nest.kf (n : Nest) : NOp → Bool
+  | .set k src => src.isVal && (resolve n.items.length k).isOk
+  | .push src => src.isVal && n.outer = .arr
+  | .pushAt src k => src.isVal && n.outer = .arr && n.pushIdxOk k
+  | _ => false
+
+/-- a source that is not a container: NULL → ValueError; otherwise the element's `assign` fails the way `Array_Assign` /
+    `List_Assign` / `Table_Assign` fail on an object without `Len`: ClassError — except that `Array_Assign` reaches `foreach` first
+    and ends in undefined behaviour (no exception) -/
+def srcExc (ek : IK) : NSrc → Option Exc
+  | .cont _ => none
+  | .val .null => some .ValueError
+  | .val _ => if ek = .arr then none else some .ClassError
+
+def Nest.spec (n : Nest) : NOp → Option Exc
+  | .get k => idxExc n.items.length k
+  | .set k src => (idxExc n.items.length k).or (srcExc n.ek src)
+  | .push src => srcExc n.ek src
+  | .pushAt src k =>
+    ((match n.outer with | .arr => pushIdxExc n.items.length k | .lst => lstPushIdxExc n.items.length k)).or (srcExc n.ek src)
+  | .pop => if n.items.length = 0 then some .IndexOutOfBoundsError else none
+  | .popAt k => idxExc n.items.length k
+  | .resize _ => none
+  | .len => none
 
 end Cello.Fail
